@@ -148,4 +148,105 @@ example : (List.range 8).all (fun f => let r := dup (fun n => n == f) sample ⟨
 example : (dup (fun _ => false) sample ⟨0, 0⟩).1.isSome = true ∧ noRef sample = false ∧ noRef (norm sample) = true := by decide
 example : getItem false [0x50, 0x41, 0x54, 0x48] (match sample with | .mk _ _ _ _ _ _ _ ks => ks) = some 0 := by decide
 
+
+/-! ### attaching a member (`add_item_to_object`) -/
+
+/-- the item as it hangs in the object afterwards: new name, constant bit as asked, everything else untouched -/
+def renamed (constKey : Bool) (key : Bytes) : Item → Item
+  | .mk k r _ vi vd vs _ kids => .mk k r constKey vi vd vs (some key) kids
+
+theorem delFreesL_append : ∀ (l : List Item) (x : Item), delFreesL (l ++ [x]) = delFreesL l + delFrees x
+  | [], x => by simp [delFreesL]
+  | k :: ks, x => by simp only [List.cons_append, delFreesL, delFreesL_append ks x]; omega
+
+/-- When the key copy fails NOTHING has changed: the object is as it was, no block was taken, and the item is not
+    attached — the caller still owns it.  (A caller that ignores the result loses `delFrees item ≥ 1` blocks:
+    the shape of known finding F60.) -/
+theorem add_member_failure_changes_nothing (s : Nat → Bool) (constKey : Bool) (key : Bytes) (obj item : Item) (a : A)
+    (h : (addToObject s constKey key obj item a).ok = false) :
+    (addToObject s constKey key obj item a).obj = obj ∧ (addToObject s constKey key obj item a).orphan = some item ∧
+    (addToObject s constKey key obj item a).a.live = a.live ∧ constKey = false ∧ s a.next = true ∧ 1 ≤ delFrees item := by
+  obtain ⟨ok, orf, oc, ovi, ovd, ovs, onm, okids⟩ := obj
+  obtain ⟨k, r, c, vi, vd, vs, nm, kids⟩ := item
+  simp only [addToObject] at h ⊢
+  cases h1 : optAlloc s (!constKey) a with
+  | mk b a1 =>
+  rw [h1] at h
+  cases b with
+  | true => simp at h
+  | false =>
+    obtain ⟨⟨j, hj, hs, _, _⟩, hl⟩ := optAlloc_false h1
+    have hc : constKey = false := by cases constKey <;> simp_all [b2n]
+    have hj0 : j = 0 := by subst hc; simp [b2n] at hj; omega
+    subst hj0
+    refine ⟨rfl, rfl, hl, hc, by simpa using hs, ?_⟩
+    simp only [delFrees]; omega
+
+/-- It fails ONLY then: with a constant key, or when the one allocation succeeds, the item is attached — as the LAST
+    child, under the new name, otherwise untouched — and nothing is left with the caller. -/
+theorem add_member_attaches_last (s : Nat → Bool) (constKey : Bool) (key : Bytes) (obj item : Item) (a : A)
+    (hs : constKey = true ∨ s a.next = false) :
+    (addToObject s constKey key obj item a).ok = true ∧ (addToObject s constKey key obj item a).orphan = none ∧
+    (addToObject s constKey key obj item a).obj.kids = obj.kids ++ [renamed constKey key item] := by
+  obtain ⟨ok, orf, oc, ovi, ovd, ovs, onm, okids⟩ := obj
+  obtain ⟨k, r, c, vi, vd, vs, nm, kids⟩ := item
+  simp only [addToObject]
+  cases h1 : optAlloc s (!constKey) a with
+  | mk b a1 =>
+  cases b with
+  | true => exact ⟨rfl, rfl, rfl⟩
+  | false =>
+    obtain ⟨⟨j, hj, hf, _, _⟩, _⟩ := optAlloc_false h1
+    cases hs with
+    | inl hc => subst hc; simp [b2n] at hj
+    | inr hn =>
+      have hj0 : j = 0 := by have := b2n_le (!constKey); omega
+      subst hj0
+      simp [hn] at hf
+
+/-- Block conservation on success: what `cJSON_Delete(object)` gives back afterwards is what it gave back before
+    plus the item's blocks plus the net allocation of the call — nothing is lost, nothing is counted twice
+    (for an object that is not a reference; with the ledger above the freed name). -/
+theorem add_member_conserves_blocks (s : Nat → Bool) (constKey : Bool) (key : Bytes) (obj item : Item) (a : A)
+    (hobj : (match obj with | .mk _ r _ _ _ _ _ _ => r) = false)
+    (hlive : 1 ≤ a.live)
+    (h : (addToObject s constKey key obj item a).ok = true) :
+    delFrees (addToObject s constKey key obj item a).obj + a.live =
+      delFrees obj + delFrees item + (addToObject s constKey key obj item a).a.live := by
+  obtain ⟨ok, orf, oc, ovi, ovd, ovs, onm, okids⟩ := obj
+  obtain ⟨k, r, c, vi, vd, vs, nm, kids⟩ := item
+  simp only at hobj
+  subst hobj
+  simp only [addToObject] at h ⊢
+  cases h1 : optAlloc s (!constKey) a with
+  | mk b a1 =>
+  rw [h1] at h
+  cases b with
+  | false => simp at h
+  | true =>
+    obtain ⟨_, _, hl⟩ := optAlloc_true h1
+    dsimp only
+    simp only [delFrees, Bool.false_eq_true, if_false, delFreesL_append]
+    cases constKey <;> cases c <;> cases nm <;> cases r <;> simp [b2n] at hl ⊢ <;> omega
+
+/-- a member that was just attached is found under its key (in any ASCII case) unless an earlier member already
+    answers to it — then that one is found, as before -/
+theorem add_member_then_lookup (key probe : Bytes) (constKey : Bool) (l : List Item) (item : Item)
+    (hk : ciEq probe key = true) :
+    getItem false probe (l ++ [renamed constKey key item]) =
+      (match getItem false probe l with | some j => some j | none => some l.length) := by
+  induction l with
+  | nil =>
+    obtain ⟨k, r, c, vi, vd, vs, nm, kids⟩ := item
+    simp [getItem, renamed, Item.name, hit, hk]
+  | cons x xs ih =>
+    simp only [List.cons_append, getItem, Bool.false_and, Bool.false_eq_true, if_false]
+    by_cases hx : hit false probe x.name = true
+    · simp [hx]
+    · simp only [hx, ih]
+      cases getItem false probe xs <;> simp
+
+example : (addToObject (fun n => n == 0) false [0x6B] sample (.mk 4 false false 0 0 none (some [0x6F]) []) ⟨0, 5⟩).ok = false := by decide
+example : (addToObject (fun _ => false) false [0x6B] sample (.mk 4 false false 0 0 none (some [0x6F]) []) ⟨0, 5⟩).a = ⟨1, 5⟩ := by decide
+
 end Cjet.Props.CjsonTree
